@@ -290,7 +290,8 @@ def _tc_order(keyspec) -> List[int]:
     index = {}
     for j, (src, cls, engine) in enumerate(keyspec):
         index[(get_import_path(cls), src, get_import_path(engine.__class__) if engine else None)] = j + 1
-    return [index.get(k, -2) for k in p["fwd"]]
+    # (the key's first three members identify the compiled text; name / origin follow since the recorded fix)
+    return [index.get(tuple(k[:3]), -2) for k in p["fwd"]]
 
 
 def template_cache(chk: Check, ntraces: int, length: int) -> None:
@@ -331,11 +332,83 @@ def template_cache(chk: Check, ntraces: int, length: int) -> None:
     chk.add("traces_validated_against_impl", total)
 
 
+def file_templates(chk: Check, nseq: int, length: int) -> None:
+    """Transparency (TemplateCache.tla: Transparent) for templates that components take from FILES next to their
+    module: three directories hold a template of identical text with a relative {% include "./p.html" %} and an own
+    p.html; a fourth component has an inline template of that same text shape.  Whatever was compiled before and
+    whatever the cache size, each render must print what compiling afresh prints: the own directory's p.html."""
+    import importlib
+    import sys
+    from django.test.utils import override_settings
+    import django_components.cache as dcache
+    root = workdir("c18ft")
+    comps = root / "comps"
+    comps.mkdir()
+    text = '[{{ x }}|{% include "./p.html" %}]'
+    for dname in ("fa", "fb", "fc"):
+        dd = comps / dname
+        dd.mkdir()
+        (dd / "__init__.py").write_text("")
+        (dd / f"mod_{dname}.py").write_text(
+            "from django_components import Component\n\n\n"
+            f"class C_{dname}(Component):\n    template_file = \"inc.html\"\n\n"
+            "    def get_context_data(self, x=0):\n        return {\"x\": x}\n")
+        (dd / "inc.html").write_text(text)
+        (dd / "p.html").write_text("own:" + dname)
+    sys.path.insert(0, str(comps))
+    rnd = random.Random(chk.seed * 7919 + 23)
+    total = 0
+    try:
+        for size in [None, 0, 1, 2, 3]:
+            cfg = {"autodiscover": False, "dirs": [str(comps)]}
+            if size is not None:
+                cfg["template_cache_size"] = size
+            templates = [{"BACKEND": "django.template.backends.django.DjangoTemplates", "DIRS": [],
+                          "OPTIONS": {"builtins": ["django_components.templatetags.component_tags"],
+                                      "loaders": ["django_components.template_loader.Loader"]}}]
+            with override_settings(COMPONENTS=cfg, TEMPLATES=templates):
+                for s in range(nseq):
+                    dcache.template_cache = None
+                    # fresh classes per sequence: the class-level resolution of template_file is part of the history
+                    classes = {}
+                    for dname in ("fa", "fb", "fc"):
+                        name = f"{dname}.mod_{dname}"
+                        sys.modules.pop(name, None)
+                        classes[dname] = getattr(importlib.import_module(name), "C_" + dname)
+                    evs = []
+                    for _ in range(length):
+                        if rnd.random() < 0.1:
+                            dcache.get_template_cache().clear()
+                            evs.append(["clear"])
+                            continue
+                        dname = rnd.choice(["fa", "fb", "fc"])
+                        x = rnd.randint(0, 99)
+                        try:
+                            out = classes[dname].render(kwargs={"x": x}, render_dependencies=False)
+                        except Exception as e:  # noqa: BLE001
+                            out = f"{type(e).__name__}: {e}"
+                        import re
+                        out = re.sub(r"<!--.*?-->", "", out)
+                        evs.append(["render", dname, x])
+                        total += 1
+                        chk.count(["file-template", size, evs], nontrivial=len(evs) > 1)
+                        want = f"[{x}|own:{dname}]"
+                        if out != want:
+                            chk.violation({"kind": "file-template", "size": size, "events": list(evs)},
+                                          {"what": "not-transparent", "expected": want, "observed": out[:200]})
+                            break
+    finally:
+        sys.path.remove(str(comps))
+        dcache.template_cache = None
+    chk.add("file_template_renders", total)
+
+
 def run(tier: str) -> int:
     from . import boot
     boot.setup()
     chk = Check(PID, tier, "model_checking")
     quick = tier == "quick"
+    file_templates(chk, nseq=12 if quick else 120, length=14 if quick else 30)
     model_check_and_replay(chk, nkeys=3 if quick else 4, nvals=2)
     validate_lru_traces(chk, ntraces=60 if quick else 600, length=60 if quick else 120)
     template_cache(chk, ntraces=25 if quick else 200, length=40 if quick else 80)
